@@ -25,7 +25,7 @@ TRUSTED_BASE = [
 
 
 def write_replay(prop, tier, seed, n, obj):
-    d = os.path.join(core.VERIF, "replays")
+    d = os.path.join(core.OUTDIR, "replays")
     os.makedirs(d, exist_ok=True)
     p = os.path.join(d, "%s-%s-%d-%d.json" % (prop, tier, seed, n))
     with open(p, "w") as f:
@@ -146,8 +146,8 @@ def main():
     cov.update(out.extra)
     ev = dict(property_id=prop, tier=tier, seed=seed, level="proof", coverage=cov,
               assumptions=TRUSTED_BASE + out.assumptions, wall_s=round(time.time() - t0, 2), violations=nviol)
-    os.makedirs(os.path.join(core.VERIF, "evidence"), exist_ok=True)
-    with open(os.path.join(core.VERIF, "evidence", prop + ".json"), "w") as f:
+    os.makedirs(os.path.join(core.OUTDIR, "evidence"), exist_ok=True)
+    with open(os.path.join(core.OUTDIR, "evidence", prop + ".json"), "w") as f:
         json.dump(ev, f, indent=1, default=repr)
         f.write("\n")
 
